@@ -383,7 +383,7 @@ def check (hw : HwFacts) (pkgToks topToks : List String) (_d : Desc) (n : Net) :
         (if rule.start.val < 2 ^ idb then [] else [fnd "field-fit" s!"{r.name}:start_addr" s!"{rule.start.val} does not fit id_t ({idb} bits)"]) ++
         (if rule.stop.val < 2 ^ idb then [] else [fnd "field-fit" s!"{r.name}:end_addr" s!"{rule.stop.val} does not fit id_t ({idb} bits)"]) ++
         (match rule.idx with
-         | .simple p => if p < 2 ^ idb then [] else [fnd "field-fit" s!"{r.name}:idx" s!"port {p} does not fit id_t ({idb} bits)"]
+         | .simple p => if p < 2 ^ Hw.ruleIdxBits n r then [] else [fnd "field-fit" s!"{r.name}:idx" s!"port {p} does not fit the idx field ({Hw.ruleIdxBits n r} bits)"]
          | _ => [fnd "field-fit" s!"{r.name}:idx" "not a port number"])
     | none => []
   let ids := n.localparams.filterMap fun (nm, t, v) =>
